@@ -1,39 +1,51 @@
 #!/bin/bash
 # Must-fail corpus: every selftest/mutants/<ID>-*.patch must make ./check <ID> report a VIOLATION
-# (optionally naming the obligation given in the patch's "# expect:" line).
+# (optionally naming the obligation given in the patch's "# expect:" line, a basic grep regex).
 # Must-pass corpus: every selftest/benign/<ID>-*.patch must keep ./check <ID> at exit 0.
-# Works on a scratch worktree of /repo (HEAD) under /var/tmp; /repo itself is not touched.
+# Works on scratch worktrees of /repo (HEAD) under /var/tmp; /repo itself is not touched. The patches are spread
+# over SELFTEST_JOBS workers (default 4), each with its own worktree and its own copy of props/claims (a snapshot,
+# so that /verif can be worked on while the corpus runs).
+# usage: tools/selftest.sh [ID]
 set -u
 cd "$(dirname "$0")/.."
 export GOFLAGS=-mod=mod GOPROXY=off GOSUMDB=off GOTOOLCHAIN=local
 only="${1:-}"
-S=/var/tmp/verif-selftest.$$
-git -C /repo worktree add -q --detach "$S" HEAD || exit 2
-trap 'git -C /repo worktree remove --force "$S" >/dev/null 2>&1; rm -rf "$S"' EXIT
-fail=0; n=0
-run() { # kind patch
-  local kind="$1" p="$2" base id expect out rc
-  base=$(basename "$p"); id=${base%%-*}
-  [ -n "$only" ] && [ "$id" != "$only" ] && return
-  expect=$(grep -m1 '^# expect:' "$p" | sed 's/^# expect: *//')
-  git -C "$S" checkout -q -- . ; git -C "$S" clean -fdq
-  if ! git -C "$S" apply "$(pwd)/$p" 2>/dev/null; then echo "SELFTEST-BROKEN $base: patch does not apply"; fail=1; return; fi
-  out=$(bin/govc check --root "$(pwd)/.selftest-root" --repo "$S" "$id" 2>&1); rc=$?
-  n=$((n+1))
-  if [ "$kind" = mutant ]; then
-    if [ $rc -ne 1 ] || ! grep -q "^VIOLATION property=$id" <<<"$out"; then echo "SELFTEST-MISSED $base (rc=$rc)"; echo "$out" | tail -3; fail=1
-    elif [ -n "$expect" ] && ! grep -q "VIOLATION.*$expect" <<<"$out"; then echo "SELFTEST-WRONG-OBLIGATION $base: expected $expect"; echo "$out" | grep VIOLATION | head -3; fail=1
-    else echo "ok   caught $base"; fi
-  else
-    if [ $rc -ne 0 ]; then echo "SELFTEST-FALSE-ALARM $base (rc=$rc)"; echo "$out" | grep VIOLATION | head -3; fail=1; else echo "ok   benign $base"; fi
-  fi
-}
-# a scratch verif root sharing props/claims/known findings/replay drivers, with its own evidence/replays
-rm -rf .selftest-root; mkdir -p .selftest-root
-for d in props claims replay known_findings.json; do ln -s "$(pwd)/$d" .selftest-root/$d; done
+jobs="${SELFTEST_JOBS:-4}"
 [ -x bin/govc ] || make -s setup
-for p in selftest/mutants/*.patch; do [ -e "$p" ] && run mutant "$p"; done
-for p in selftest/benign/*.patch; do [ -e "$p" ] && run benign "$p"; done
-rm -rf .selftest-root
+T=/var/tmp/verif-selftest.$$
+mkdir -p "$T"
+cp bin/govc "$T/govc"
+trap 'for w in "$T"/wt.*; do [ -d "$w" ] && git -C /repo worktree remove --force "$w" >/dev/null 2>&1; done; rm -rf "$T"' EXIT
+list=()
+for p in selftest/mutants/*.patch; do [ -e "$p" ] && list+=("mutant $p"); done
+for p in selftest/benign/*.patch; do [ -e "$p" ] && list+=("benign $p"); done
+worker() { # index
+  local k=$1 S="$T/wt.$1" R="$T/root.$1" i=0 item kind p base id expect out rc
+  git -C /repo worktree add -q --detach "$S" HEAD || { echo "SELFTEST-BROKEN worker $k: no worktree"; return; }
+  mkdir -p "$R"; cp -r props claims known_findings.json "$R/"; ln -s "$(pwd)/replay" "$R/replay"
+  for item in "${list[@]}"; do
+    kind=${item%% *}; p=${item#* }
+    base=$(basename "$p"); id=${base%%-*}
+    [ -n "$only" ] && [ "$id" != "$only" ] && continue
+    i=$((i+1)); [ $((i % jobs)) -eq $((k % jobs)) ] || continue
+    expect=$(grep -m1 '^# expect:' "$p" | sed 's/^# expect: *//')
+    git -C "$S" checkout -q -- . ; git -C "$S" clean -fdq
+    if ! git -C "$S" apply "$(pwd)/$p" 2>/dev/null; then echo "SELFTEST-BROKEN $base: patch does not apply"; continue; fi
+    out=$("$T/govc" check --root "$R" --repo "$S" "$id" 2>&1); rc=$?
+    if [ "$kind" = mutant ]; then
+      if [ $rc -ne 1 ] || ! grep -q "^VIOLATION property=$id" <<<"$out"; then echo "SELFTEST-MISSED $base (rc=$rc)"; echo "$out" | tail -3
+      elif [ -n "$expect" ] && ! grep -q "VIOLATION.*$expect" <<<"$out"; then echo "SELFTEST-WRONG-OBLIGATION $base: expected $expect"; echo "$out" | grep VIOLATION | head -3
+      else echo "ok   caught $base"; fi
+    else
+      if [ $rc -ne 0 ]; then echo "SELFTEST-FALSE-ALARM $base (rc=$rc)"; echo "$out" | grep VIOLATION | head -3; else echo "ok   benign $base"; fi
+    fi
+  done
+}
+for k in $(seq 1 "$jobs"); do worker "$k" > "$T/out.$k" 2>&1 & done
+wait
+cat "$T"/out.* > "$T/all"
+cat "$T/all"
+n=$(grep -c "^ok\|^SELFTEST" "$T/all")
+fail=0; grep -q "^SELFTEST" "$T/all" && fail=1
 echo "selftest: $n patches, fail=$fail"
 exit $fail
